@@ -77,7 +77,9 @@ def lean_ty(t):
         if t[0] == "res":
             return f"Except IntError {atom(lean_ty(t[1]))}"
         if t[0] == "map":
-            return "List (String × Macro R)"      # HashMap<&str, Macro>: association list, later entries win (Model/Interp.lean)
+            # HashMap<&str, V>: association list, later entries win (Model/Interp.lean, Rs.map*)
+            v = ("struct", t[1]) if isinstance(t[1], str) and t[1] in STRUCT_LEAN else t[1]
+            return f"List (String × {atom(lean_ty(v))})"
         if t[0] == "tup":
             return " × ".join(atom(lean_ty(x)) for x in t[1])
         if t[0] == "struct":
@@ -85,7 +87,7 @@ def lean_ty(t):
     raise Unsupported(f"no Lean type for {t}")
 
 
-STRUCT_LEAN = {"AstNode": "Node R", "Inner": "Inner R", "PExpr": "PExpr R", "Macro": "Macro R", "QReg": "QRegG R", "CReg": "CRegG", "VReg": "VRegG", "SingleOp": "SingleOp R", "BitsIter": "BitsIterG",
+STRUCT_LEAN = {"Call": "Call R", "MacroErr": "MacroErr", "AstNode": "Node R", "Inner": "Inner R", "PExpr": "PExpr R", "Macro": "Macro R", "QReg": "QRegG R", "CReg": "CRegG", "VReg": "VRegG", "SingleOp": "SingleOp R", "BitsIter": "BitsIterG",
                "Atom": "Atom R", "ExtOp": "ExtOp R", "Sep": "Sep", "MeasureOp": "MeasureOp", "Sym": "SymG R", "Int": "Interp R", "Argument": "Arg", "IntError": "IntError"}
 STRUCT_FIELDS = {
     "QReg": [("psi", ("vec", "C")), ("q_num", "N"), ("q_mask", "N")],
@@ -96,6 +98,8 @@ STRUCT_FIELDS = {
     "Int": [("m_op", ("struct", "MeasureOp")), ("q_reg", ("vec", "str")), ("c_reg", ("vec", "str")), ("q_ops", ("struct", "ExtOp")),
             ("macros", ("map", "Macro")), ("asts", ("vec", "Ast"))],
     "Sym": [("m_op", ("struct", "MeasureOp")), ("q_reg", ("struct", "QReg")), ("c_reg", ("struct", "CReg")), ("q_ops", ("struct", "ExtOp"))],
+    "Macro": [("regs", ("vec", "str")), ("args", ("vec", "str")), ("nodes", ("vec", ("struct", "Call")))],
+    "Call": [("name", "str"), ("regs", ("vec", ("struct", "Argument"))), ("args", ("vec", ("struct", "PExpr")))],
     "ExtOp": [("blocks", ("vec", ("tup", [("vec", ("struct", "SingleOp")), ("struct", "Sep")]))), ("tail", ("vec", ("struct", "SingleOp")))],
 }
 MULTIOP = ("vec", ("struct", "SingleOp"))
@@ -313,13 +317,19 @@ class Emitter:
             return "str"
         if t.startswith("Argument"):
             return ("struct", "Argument")
+        m = re.fullmatch(r"HashMap<&'tstr,(.*)>", t)
+        if m:
+            inner = m.group(1)
+            return ("map", "Macro") if inner.startswith("Macro") else ("map", self.ty_of_text(inner))
+        if t in ("Macro<'t>", "Macro"):
+            return ("struct", "Macro")
         if t in ("AstNode<'t>", "AstNode"):
             return ("struct", "AstNode")
         if t in ("Box<AstNode<'t>>",):
             return ("struct", "Inner")        # the statement under `if`: a gate application or anything else (Model/Interp.lean)
         if t in ("Ast<'t>", "Ast"):
             return ("vec", ("struct", "AstNode"))
-        m = re.fullmatch(r"Result<'t,(.*)>", t)
+        m = re.fullmatch(r"(?:int::)?Result<'t,(.*)>", t)
         if m:
             inner = m.group(1)
             return ("res", "unit" if inner == "()" else self.ty_of_text(inner))
@@ -547,6 +557,21 @@ class Emitter:
 
     def index(self, e, env):
         b, bt = self.ex(e[1], env)
+        if isinstance(bt, tuple) and bt[0] == "map":
+            # HashMap indexing panics on a missing key
+            if self.monad != "Except":
+                self.fail("HashMap indexing outside a function that returns a Result")
+            kx, kt = self.ex(e[2], env, "str")
+            if kt != "str":
+                self.fail("HashMap indexed by something else than a name")
+            vt = ("struct", bt[1]) if isinstance(bt[1], str) and bt[1] in STRUCT_LEAN else bt[1]
+            u = self.gensym("u")
+            base = unparen(e[1])
+            label = (base[1][-1] if base[0] == "path" else "map") + "[&name]"
+            self.pending.append((u, f"Interp.orPanic \"{label}\" (Rs.mapGet {atom(b)} {atom(kx)})"))
+            self.monadic = True
+            self.nflush += 1
+            return u, vt
         if not (isinstance(bt, tuple) and bt[0] == "vec"):
             self.fail(f"indexing a {bt}")
         ie = unparen(e[2])
@@ -784,6 +809,11 @@ class Emitter:
             lets.append(f"let {n} := {val}")
             env[pat[1]] = (n, ty)
             return
+        if pat[0] == "ptuple" and ty == ("struct", "Call") and len(pat[1]) == 3:
+            # a body statement of a gate definition `(name, regs, args)`: the model's record `Call`
+            for p, (fld, fty) in zip(pat[1], STRUCT_FIELDS["Call"]):
+                self.bind_pat(p, f"{atom(val)}.{fld}", fty, env, lets)
+            return
         if pat[0] == "ptuple":
             if not (isinstance(ty, tuple) and ty[0] == "tup" and len(ty[1]) == len(pat[1])):
                 self.fail(f"tuple pattern against {ty}")
@@ -826,7 +856,8 @@ class Emitter:
             self.pending = []
             keep, self.propagate = self.propagate, 0
             try:
-                v, _ = self.stmts(body[1], body[2], dict(env2), lambda env3, v: (f"some {atom(v[0])}", v[1]), None)
+                okc = "Except.ok" if self.monad == "Except" else "some"
+                v, _ = self.stmts(body[1], body[2], dict(env2), lambda env3, v: (f"{okc} {atom(v[0])}", v[1]), None)
             finally:
                 self.propagate = keep
         self.pending = saved
@@ -847,6 +878,31 @@ class Emitter:
     def mcall(self, e, env, want):
         recv, name, args = e[1], e[2], e[3]
         r0 = unparen(recv)
+        if name == "map_err" and len(args) == 1 and r0[0] == "mcall" and r0[2] == "collect" and unparen(r0[1])[0] == "mcall" \
+                and unparen(r0[1])[2] == "map" and len(unparen(r0[1])[3]) == 1:
+            # ITER.map(|a| parse::eval_extended(a, VARS.clone())).collect::<parse::Result<Vec<_>>>()
+            #     .map_err(|e| super::Error::UnevaluatedArgument(NAME, e))          (parse.rs is mirrored by hand)
+            mp = unparen(r0[1])
+            c1, c2 = unparen(mp[3][0]), unparen(args[0])
+            ok = c1[0] == "closure" and len(c1[1]) == 1 and c1[1][0][0] == "pid" and c2[0] == "closure" and len(c2[1]) == 1 and c2[1][0][0] == "pid"
+            if ok:
+                b1, b2 = unparen(c1[2]), unparen(c2[2])
+                ok = b1[0] == "call" and unparen(b1[1]) == ("path", ["parse", "eval_extended"]) and len(b1[2]) == 2 \
+                    and unparen(b1[2][0]) == ("path", [c1[1][0][1]]) and unparen(b1[2][1])[0] == "mcall" and unparen(b1[2][1])[2] == "clone" \
+                    and b2[0] == "call" and unparen(b2[1])[1][-2:] == ["Error", "UnevaluatedArgument"] and len(b2[2]) == 2 \
+                    and unparen(b2[2][1]) == ("path", [c2[1][0][1]])
+            if not ok:
+                self.fail("map_err after collect: not the evaluation of actual parameters")
+            it = self.iter_of(mp[1], env)
+            if it["elem"] != ("struct", "PExpr"):
+                self.fail("eval_extended over something else than parameter expressions")
+            vars_, tv = self.ex(unparen(b1[2][1])[1], env)
+            if tv != ("vec", ("tup", ["str", "R"])):
+                self.fail(f"eval_extended with variables of type {tv}")
+            nm, tn = self.ex(b2[2][0], env)
+            if tn != "str":
+                self.fail("UnevaluatedArgument of something else than a name")
+            return f"(Interp.evalArgsWith {atom(nm)} {atom(vars_)} {atom(it['list'])})", ("res", ("vec", "R"))
         if name == "map_err" and len(args) == 1 and r0[0] == "call" and unparen(r0[1]) == ("path", ["parse", "eval_extended"]) \
                 and len(r0[2]) == 2 and unparen(r0[2][1]) == ("path", ["None"]):
             # parse::eval_extended(arg, None).map_err(|e| Error::UnevaluatedArgument(arg, e)): parse.rs is mirrored by hand
@@ -936,7 +992,8 @@ class Emitter:
                 kx, kt = self.ex(args[0], env, "str")
                 if kt != "str":
                     self.fail("get with a key that is not a name")
-                return f"(Rs.mapGet {atom(v)} {atom(kx)})", ("opt", ("struct", t[1]))
+                vt = ("struct", t[1]) if isinstance(t[1], str) and t[1] in STRUCT_LEAN else t[1]
+                return f"(Rs.mapGet {atom(v)} {atom(kx)})", ("opt", vt)
         if isinstance(t, tuple) and t[0] == "opt":
             if name in ("unwrap", "expect"):
                 u = self.gensym("u")
@@ -954,6 +1011,8 @@ class Emitter:
                     self.fail("and_then closure")
                 return f"Option.bind {atom(v)} {atom(f)}", tf
         if name == "into" and not args:
+            if t == ("struct", "MacroErr"):
+                return f"(IntError.macroError {atom(v)})", ("struct", "IntError")      # From<macros::Error> for Error
             if t == ("struct", "Atom"):
                 sg = self.tr.sigs.get(("SingleOp", "from"))
                 if sg is None:
@@ -1042,6 +1101,11 @@ class Emitter:
         if it["mut"] is not None:
             self.fail(f".{name} on iter_mut")
         if name == "collect" and not args:
+            if isinstance(want, tuple) and want[0] == "map":
+                wv = ("struct", want[1]) if isinstance(want[1], str) and want[1] in STRUCT_LEAN else want[1]
+                if it["elem"] != ("tup", ["str", wv]):
+                    self.fail(f"collect of {it['elem']} into a map of {want[1]}")
+                return it["list"], want            # later entries win on lookup, as in HashMap::from_iter
             return it["list"], ("vec", it["elem"])
         if name == "sum" and not args:
             if it["elem"] not in ("R", "N"):
@@ -1081,6 +1145,13 @@ class Emitter:
                 if t != ty and not (is_int(t) and is_int(ty)):
                     self.fail(f"constructor {segs[-2]}::{last}: {t} where {ty} is expected")
             return f"({ctor} " + " ".join(atom(v) for v, _ in vs) + ")", ("struct", segs[-2])
+        if segs == ["Error", last] and last[0].isupper() and getattr(self.tr, "macro_ctx", False):
+            # inside macros.rs `Error` is macros::Error (the model's MacroErr); the interpreter's is `super::Error`
+            vs = [self.ex(a, env) for a in args]
+            if last == "DisallowedNodeInMacro":
+                return "MacroErr.disallowedNodeInMacro", ("struct", "MacroErr")
+            ctor = "MacroErr." + last[0].lower() + last[1:]
+            return (f"({ctor} " + " ".join(atom(v) for v, _ in vs) + ")") if vs else ctor, ("struct", "MacroErr")
         if segs[-2:] == ["Error", last] and last[0].isupper():
             # the interpreter's error type: same constructor names, lower camel case, in the model
             if last == "DisallowedNodeInIf" and len(args) == 1:
@@ -1517,6 +1588,27 @@ class Emitter:
             self.fail("let without initialiser")
         want = self.ty_of_text(ty) if ty else None
         e0 = unparen(e)
+        if e0[0] == "try" and pat[0] == "pid" and unparen(e0[1])[0] == "mcall" and unparen(e0[1])[2] in self.tr.mut_method_names \
+                and self.monad == "Except":
+            # `let x = RECV.method(.., &mut y, ..)?;` the method returns Result<T, _> and updates y
+            call = unparen(e0[1])
+            saved = list(self.pending)
+            try:
+                rv0, rt0 = self.ex(call[1], dict(env))
+            except Unsupported:
+                rv0, rt0 = None, None
+            self.pending = saved
+            sig = self.tr.method(rt0[1], call[2]) if isinstance(rt0, tuple) and rt0[0] == "struct" else None
+            if sig is not None and sig.muts and sig.kind == "Except" and sig.ret != "unit":
+                def bind(env3, retv):
+                    env4 = dict(env3); env4[pat[1]] = retv
+                    return cont(env4)
+                return self.call_mut(sig, call[1], call[3], env, None, bind)
+        if e0[0] == "match" and pat[0] == "pid" and self.monad == "Except" and len(e0[2]) == 2 and all(a[1] is None for a in e0[2]) \
+                and e0[2][0][0][0] == "ppath" and e0[2][0][0][1] == ["Some"] and e0[2][0][0][2] and len(e0[2][0][0][2]) == 1 \
+                and e0[2][0][0][2][0][0] == "pid" and e0[2][1][0] == ("ppath", ["None"], None) \
+                and not (unparen(e0[2][0][2])[0] == "try" and unparen(e0[2][1][2])[0] == "try"):
+            return self.optmatch_let(pat[1], e0, env, cont)
         # `let Op(ref mut a, ref mut b) = self;` : names for the two fields of an ExtOp place
         if pat[0] == "ppath" and pat[1] == ["Op"] and pat[2] is not None and len(pat[2]) == 2:
             if all(p[0] == "pidref" for p in pat[2]):
@@ -1594,6 +1686,76 @@ class Emitter:
             v = self.ex(e2, env2, want)
             return self.with_pending(lambda: self.bind_let(pat, v, want, env2, cont))
         return self.hoist(e, env, fin)
+
+    def optmatch_let(self, x, e, env, cont):
+        """`let x = match OPT { Some(p) => A, None => B };` in a function that returns a Result: the arms are statement
+        blocks (they may use `?`, `return Err(..)`, update variables declared outside); both end in the value of x"""
+        sv, st = self.ex(unparen(e[1]), env)
+        if not (isinstance(st, tuple) and st[0] == "opt"):
+            self.fail("match Some / None on something else than an Option")
+        p = e[2][0][0][2][0][1]
+        arms = []
+        roots = []
+        for arm_env_extra, body in ((True, e[2][0][2]), (False, e[2][1][2])):
+            env2 = dict(env)
+            if arm_env_extra:
+                env2[p] = (lname(p), st[1])
+            b = unparen(body)
+            blk = b if b[0] == "block" else ("block", [], b)
+            for r in self.assigned_roots(blk, env2):
+                if r not in roots:
+                    roots.append(r)
+            arms.append((env2, blk))
+        tys = [env[r][1] for r in roots]
+        vals = []
+        vty = [None]
+        for env2, blk in arms:
+            def k(env3, v):
+                if v is None:
+                    self.fail("match arm without a value")
+                if vty[0] is None:
+                    vty[0] = v[1]
+                elif vty[0] != v[1] and not (is_int(vty[0]) and is_int(v[1])):
+                    self.fail(f"match arms of types {vty[0]} / {v[1]}")
+                comps = [v[0]] + [env3[r][0] for r in roots]
+                packed = comps[0] if len(comps) == 1 else "(" + ", ".join(comps) + ")"
+                return f"(Except.ok {atom(packed)})", None
+            saved = self.pending; self.pending = []
+            keep_ret, keep_rty = self.on_return, self.ret_ty
+            def arm_return(env3, val):
+                # `return Err(e)` inside an arm: the error of the whole match (and, through the bind, of what encloses it)
+                m = re.fullmatch(r"\(Except\.error (.*) : [^:]*\)", val[0] if val else "", re.S)
+                if not m:
+                    self.fail("return of something else than Err(..) inside a match arm")
+                return f"(Except.error {m.group(1)})", None
+            self.on_return = arm_return
+            self.ret_ty = ("res", "unit")
+            try:
+                a, _ = self.stmts(blk[1], blk[2], env2, k, None)
+            finally:
+                self.on_return, self.ret_ty = keep_ret, keep_rty
+            if self.pending:
+                self.fail("match arm with hoisted effects left")
+            self.pending = saved
+            vals.append(a)
+        res = self.gensym("m")
+        env4 = dict(env)
+        lets = []
+        comps_t = [vty[0]] + tys
+        if len(comps_t) == 1:
+            env4[x] = (res, vty[0])
+        else:
+            n = len(comps_t)
+            for i, (nm, t) in enumerate(zip([x] + roots, comps_t)):
+                proj = f".{i + 1}" if n == 2 else ".2" * i + (".1" if i < n - 1 else "")
+                ln = lname(nm)
+                lets.append(f"let {ln} := {res}{proj}")
+                env4[nm] = (ln, t)
+        self.monadic = True
+        self.nflush += 1
+        inner, t = self.wrap_lets(lets, cont(env4))
+        sty = " × ".join(atom(lean_ty(t_)) for t_ in comps_t)
+        return self.with_pending(lambda: (f"Except.bind ((match {sv} with | some {lname(p)} => {vals[0]} | none => {vals[1]}) : Except IntError ({sty})) (fun {res} => {inner})", t))
 
     def bind_let(self, pat, v, want, env, cont):
         if v is None:
@@ -1760,6 +1922,8 @@ class Emitter:
                     if name == "resize" and len(args) == 2:
                         n, tn = self.ex(args[0], env, "N"); x, tx = self.ex(args[1], env, rt[1])
                         return self.set_place(recv, f"Rs.resize {atom(rv)} {atom(n)} {atom(x)}", env, cont)
+                    if name == "pop" and not args:
+                        return self.set_place(recv, f"List.dropLast {atom(rv)}", env, cont)      # the popped element is not used
                     if name in ("reserve", "reserve_exact", "shrink_to_fit") :
                         return cont(env)          # capacity only
                     if name in ("push", "push_back") and len(args) == 1:
@@ -2460,7 +2624,10 @@ class Emitter:
             return self.set_place(vec, new, env, cont)
         if itexpr[0] == "range" and itexpr[2] is None and itexpr[1] is not None:
             return self.for_unbounded(e, env, cont)
-        if contains(body, ("return", "break")):
+        ret_err_only = self.monad == "Except" and not contains(body, ("break",)) and all(
+            unparen(n[1] or ("x",))[0] == "call" and unparen(unparen(n[1])[1]) == ("path", ["Err"])
+            for n in walk(body) if isinstance(n, tuple) and n and n[0] == "return")
+        if contains(body, ("return", "break")) and not ret_err_only:
             self.fail("return / break inside a for loop")
         it = self.iter_of(itexpr, env)
         if it["mut"] is not None:
@@ -2484,10 +2651,24 @@ class Emitter:
             self.loop_handlers = self.loop_handlers + [{"continue": on_continue, "break": None}]
             saved = self.pending; self.pending = []
             keep, self.propagate = self.propagate, (0 if monadic else 1)
+            keep_ret, keep_rty = self.on_return, self.ret_ty
+            if monadic and self.monad == "Except":
+                # `return Err(e)` inside the body ends the fold with that error
+                st_ty = " × ".join(atom(lean_ty(t)) for t in tys)
+                def loop_return(env3, val):
+                    if val is None or not (isinstance(val[1], tuple) and val[1][0] == "res"):
+                        self.fail("return of something else than Err(..) inside a for loop")
+                    m = re.fullmatch(r"\(Except\.error (.*) : [^:]*\)", val[0], re.S)
+                    if not m:
+                        self.fail("return of something else than Err(..) inside a for loop")
+                    return f"(Except.error {m.group(1)} : Except IntError {atom(st_ty)})", None
+                self.on_return = loop_return
+                self.ret_ty = ("res", "unit")
             try:
                 v, t = self.stmts(stmts_, None, env2, lambda env3, _v: on_continue(env3))
             finally:
                 self.propagate = keep
+                self.on_return, self.ret_ty = keep_ret, keep_rty
             left = self.pending
             self.pending = saved
             self.loop_handlers = self.loop_handlers[:-1]
@@ -2511,7 +2692,8 @@ class Emitter:
             res_ty = (f"Except IntError ({st_ty})" if self.monad == "Except" else f"Option ({st_ty})") if monadic else st_ty
             self.aux.append(f"def {name}{binder} : {atom(st_ty)} → {atom(lean_ty(it['elem']))} → {res_ty} :=\n  {f}\n")
             return "(" + " ".join([name] + [env[r][0] for r in used]) + ")"
-        f, left = translate(False)
+        has_ret = contains(body, ("return",))
+        f, left = (None, True) if has_ret else translate(False)
         if left or self.nflush != n0:
             # the body can panic: a fold in the Option monad
             self.monadic = True
@@ -2787,6 +2969,9 @@ class Translator:
             e = unparen(e)
             return e[0] == "mcall" and e[2] in self.mut_method_names and unparen(e[1]) == ("path", ["self"]) and \
                 any((sg.kind == "Except" and sg.ret == "unit") for sg in self.sigs_named(e[2]))
+        def is_mut_res_call(e):
+            e = unparen(e)
+            return e[0] == "mcall" and e[2] in self.mut_method_names and any(sg.kind == "Except" for sg in self.sigs_named(e[2]))
         def fix(e):
             if e is None:
                 return e
@@ -2814,6 +2999,16 @@ class Translator:
             if not (isinstance(b, tuple) and b and b[0] == "block"):
                 return b
             stmts = list(b[1])
+            tl = unparen(b[2]) if b[2] is not None else None
+            if tl and tl[0] == "try" and unparen(tl[1])[0] == "path" and len(unparen(tl[1])[1]) == 1:
+                # `let r = CALL(&mut x); S..; r?` (tail): `let r = CALL(&mut x)?; S..; r`
+                r = unparen(tl[1])[1][0]
+                for i, st in enumerate(stmts):
+                    if st[0] == "let" and st[1] == ("pid", r) and st[3] is not None and is_mut_res_call(st[3]) and \
+                            not any(n == ("path", [r]) for x in stmts[i + 1:] for n in walk(x)):
+                        stmts[i] = ("let", st[1], st[2], ("try", unparen(st[3])))
+                        b = ("block", stmts, ("path", [r])) + tuple(b[3:])
+                        break
             for i, st in enumerate(stmts):
                 if st[0] == "let" and st[1][0] == "pid" and st[3] is not None and is_mut_call(st[3]):
                     r = st[1][1]
@@ -2833,8 +3028,47 @@ class Translator:
             if isinstance(x, list):
                 return [deep(y) for y in x]
             return x
+        def try_fold_tail(b):
+            """tail `ITER.try_fold(INIT, |acc, PAT| { S..; Ok(X) })` is `let mut acc_ = INIT; for PAT in ITER { let acc = acc_;
+            S..; acc_ = X; } Ok(acc_)` with the closure's `return Err(e)` / `?` leaving the function (same value either way)"""
+            t = unparen(b[2]) if b[2] is not None else None
+            if not (t and t[0] == "mcall" and t[2] == "try_fold" and len(t[3]) == 2):
+                return b
+            init, clo = t[3][0], unparen(t[3][1])
+            if not (clo[0] == "closure" and len(clo[1]) == 2 and clo[1][0][0] == "pid" and unparen(clo[2])[0] == "block"):
+                return b
+            cb = unparen(clo[2])
+            tail = unparen(cb[2]) if cb[2] is not None else None
+            if not (tail and tail[0] == "call" and unparen(tail[1]) == ("path", ["Ok"]) and len(tail[2]) == 1):
+                return b
+            acc, accv = clo[1][0][1], "acc_fold_"
+            loop_body = ("block", [("let", ("pid", acc), None, ("path", [accv]))] + list(cb[1]) +
+                         [("assign", ("path", [accv]), "=", tail[2][0])], None)
+            return ("block", list(b[1]) + [("let", ("pid", accv), None, init), ("expr", ("for", clo[1][1], t[1], loop_body))],
+                    ("call", ("path", ["Ok"]), [("path", [accv])])) + tuple(b[3:])
+        def tail_res_call(b):
+            """tail `self.m(.., &mut TEMP)` of a method returning `Result<T, _>` with `&mut` parameters:
+            `let mut t_ = TEMP; let r_ = self.m(.., &mut t_)?; Ok(r_)`"""
+            t = unparen(b[2]) if b[2] is not None else None
+            if not (t and t[0] == "mcall" and t[2] in self.mut_method_names and unparen(t[1]) == ("path", ["self"])
+                    and any(sg.kind == "Except" and sg.ret != "unit" for sg in self.sigs_named(t[2]))):
+                return b
+            lets, args = [], []
+            for i, a in enumerate(t[3]):
+                ua = unparen(a)
+                if ua[0] == "refmut" and unparen(ua[1])[0] != "path":
+                    nm = f"tmp{i}_"
+                    lets.append(("let", ("pid", nm), None, ua[1]))
+                    args.append(("refmut", ("path", [nm])))
+                else:
+                    args.append(a)
+            call = ("mcall", t[1], t[2], args)
+            return ("block", list(b[1]) + lets + [("let", ("pid", "res_"), None, ("try", call))],
+                    ("call", ("path", ["Ok"]), [("path", ["res_"])])) + tuple(b[3:])
         if body[0] == "block":
             body = ("block", body[1], fix(body[2])) + tuple(body[3:])
+            body = try_fold_tail(body)
+            body = tail_res_call(body)
             return early_try(body)
         return body
 
@@ -2954,7 +3188,12 @@ class Translator:
                 v = v.replace("RET:", "")
                 rtxt = res_lean
                 aux = em.aux
-            binder = " (fuel : Nat)" if self.fuels.get(lean) == "fuel" else ""
+            if getattr(self, "recursive_fuel", None) == lean:
+                # a self-recursive function: structural recursion on an explicit fuel (the model's definition has the same shape)
+                v = f"match fuel0 with\n  | 0 => (Except.error (Interp.panicErr \"{getattr(self, 'recursive_label', 'depth')}\") : {rtxt})\n  | fuel + 1 =>\n  {v}"
+                binder = " (fuel0 : Nat)"
+            else:
+                binder = " (fuel : Nat)" if self.fuels.get(lean) == "fuel" else ""
             binder += "".join(f" ({lname(n)} : {lean_ty(t)})" for n, t in ps)
             binder += "".join(f" ({n} : {lean_ty(t)})" for n, t in em.inputs)
             d = doc or f"`{file}`: `{rust}`"
@@ -3298,6 +3537,37 @@ def main():
         tr.generic_op_is_multi = False
     group("qasm/sym.rs", symfile)
 
+    # ---- qasm/int/macros.rs: user-defined gates
+    def macrosfile(t):
+        fs = struct_fields(t, "Macro")
+        if [n for n, _ in fs] != ["regs", "args", "nodes"]:
+            raise Unsupported(f"struct Macro has fields {[n for n, _ in fs]}, the translation expects regs, args, nodes")
+        tr.out.append("section macros\nvariable [ExprFns R] [AngleFns R]\n")
+        tr.macro_ctx = True
+        M = r"impl < 't > Macro < 't >"
+        gproc = Sig("Gates.processE", [("name", "str"), ("regs", ("vec", "N")), ("args", ("vec", "R"))], MULTIOP, [])
+        gproc.kind = "Except"; gproc.monadic = True
+        tr.register("gates", "process", gproc)
+        T(t, "qasm/int/macros.rs", "argument_name", "macro_argument_name", param_types={"reg": ("struct", "Argument")})
+        # process_nested calls itself: registered beforehand, with the fuel of the recursive definition as first argument
+        rec = Sig("macro_process_nested fuel", [("self", ("struct", "Macro")), ("name", "str"), ("regs", ("vec", "N")), ("args", ("vec", "R")),
+                                                 ("macros", ("map", "Macro")), ("stack", ("vec", "str"))], MULTIOP, ["stack"])
+        rec.kind = "Except"; rec.monadic = True
+        tr.register("Macro", "process_nested", rec)
+        tr.recursive_fuel = "macro_process_nested"
+        tr.recursive_label = "macro-depth"
+        T(t, "qasm/int/macros.rs", "process_nested", "macro_process_nested", struct="Macro", impl=M, default_elem="str")
+        tr.recursive_fuel = None
+        # Macro::process: the expansion starts with the call stack [name]; the recursion of process_nested is bounded by the
+        # number of gate definitions (a name is never entered twice), the fuel given here is that bound + 2 (Props/C12)
+        top = Sig("macro_process_nested (List.length macros + 2)", rec.params, MULTIOP, ["stack"])
+        top.kind = "Except"; top.monadic = True
+        tr.register("Macro", "process_nested", top)
+        T(t, "qasm/int/macros.rs", "process", "macro_process", struct="Macro", impl=M, default_elem="str")
+        tr.macro_ctx = False
+        tr.out.append("end macros\n")
+    group("qasm/int/macros.rs", macrosfile)
+
     # ---- qasm/int/mod.rs, second part: statement dispatch and the session entry points. Gate application / definition / `if`
     # are handed on to the model's functions (glue `Interp.ext*` in Model/Interp.lean) as long as they are mirrored by hand
     # (tools/canon.py ties their text)
@@ -3309,9 +3579,7 @@ def main():
             sg = Sig(lean, [("self", INT), ("changes", INT)] + ps, "unit", ["changes"])
             sg.kind = "Except"; sg.monadic = True
             tr.register("Int", rust, sg)
-        mproc = Sig("Macro.processE", [("self", ("struct", "Macro")), ("name", "str"), ("regs", ("vec", "N")), ("args", ("vec", "R")), ("macros", ("map", "Macro"))], MULTIOP, [])
-        mproc.kind = "Except"; mproc.monadic = True
-        tr.register("Macro", "process", mproc)
+        # Macro::process is the translated `macro_process` (group macrosfile above)
         gproc = Sig("Gates.processE", [("name", "str"), ("regs", ("vec", "N")), ("args", ("vec", "R"))], MULTIOP, [])
         gproc.kind = "Except"; gproc.monadic = True
         tr.register("gates", "process", gproc)
